@@ -59,6 +59,8 @@ def ev(e, env):
                 ok = left == right if isinstance(left, str) or isinstance(right, str) else left is right
             elif isinstance(op, ast.IsNot):
                 ok = left != right if isinstance(left, str) or isinstance(right, str) else left is not right
+            elif isinstance(op, (ast.In, ast.NotIn)) and isinstance(right, (set, frozenset, tuple, list)):
+                ok = (left in right) == isinstance(op, ast.In)
             elif isinstance(op, (ast.Lt, ast.LtE, ast.Gt, ast.GtE)) and isinstance(left, (int, bool)) and isinstance(right, (int, bool)):
                 ok = {ast.Lt: left < right, ast.LtE: left <= right, ast.Gt: left > right, ast.GtE: left >= right}[type(op)]
             else:
@@ -69,15 +71,23 @@ def ev(e, env):
         return True
     if isinstance(e, ast.Call) and isinstance(e.func, ast.Name) and e.func.id == "bool" and len(e.args) == 1:
         return bool(ev(e.args[0], env))
+    if isinstance(e, (ast.Set, ast.Tuple, ast.List)) and all(isinstance(x, ast.Constant) for x in e.elts):
+        vals = [x.value for x in e.elts]
+        return frozenset(vals) if isinstance(e, ast.Set) else tuple(vals)
     if isinstance(e, ast.Subscript):
         d = ast.unparse(e)
         if d in env:
             return env[d]
         raise EvUnk(f"subscript {d}")
-    if isinstance(e, ast.BinOp) and isinstance(e.op, (ast.Add, ast.Sub, ast.Mult)):
+    if isinstance(e, ast.BinOp) and isinstance(e.op, (ast.Add, ast.Sub, ast.Mult, ast.Pow, ast.LShift, ast.FloorDiv)):
         l, r = ev(e.left, env), ev(e.right, env)
         if isinstance(l, (int, bool)) and isinstance(r, (int, bool)):
-            return {ast.Add: lambda: l + r, ast.Sub: lambda: l - r, ast.Mult: lambda: l * r}[type(e.op)]()
+            if isinstance(e.op, (ast.Pow, ast.LShift)) and not 0 <= r <= 64:
+                raise EvUnk("exponent / shift out of the small-integer range")
+            if isinstance(e.op, ast.FloorDiv) and r == 0:
+                raise EvUnk("division by zero")
+            return {ast.Add: lambda: l + r, ast.Sub: lambda: l - r, ast.Mult: lambda: l * r, ast.Pow: lambda: l ** r, ast.LShift: lambda: l << r,
+                    ast.FloorDiv: lambda: l // r}[type(e.op)]()
         raise EvUnk("arithmetic on non-integers")
     if isinstance(e, ast.Call) and isinstance(e.func, ast.Name) and e.func.id in ("min", "max") and e.args and not e.keywords:
         vs = [ev(a, env) for a in e.args]
